@@ -213,12 +213,19 @@ def run(tier, seed, replay=None):
             crit = {"start_execution", "_launch_ops_if_able", "_wait_for_next_inflight_op", "wait_for_next_op", "finish_execution",
                     "run_plan", "terminate_processes", "add_op", "track", "wait", "maybe_tee", "popen_arg", "tee_pipe"}
             funcs = base.abort.get("funcs") or []
+            lines = base.abort.get("lines") or [0] * len(funcs)
             critical = [i + 1 for i, fn in enumerate(funcs) if fn in crit]
+            # every LINE of the critical functions, at its first visits (a line is visited once per operation, so the
+            # first visits see it with 0 / 1 / 2 processes in flight and with recorded / unrecorded output) and with both
+            # parities of k (the parity decides whether the just-spawned process has already vanished).  A cap per
+            # function instead of per line once left the later lines of start_execution -- the window between Popen()
+            # returning and the handle being registered, for the second operation of a chain -- without any injection.
             seen_sites, picked = {}, []
-            for kk in critical:   # at most 4 visits of one function are needed to see it with 0/1/2/3 processes in flight
-                c = seen_sites.get(funcs[kk - 1], 0)
-                if c < 60:
-                    seen_sites[funcs[kk - 1]] = c + 1
+            for kk in critical:
+                site = (funcs[kk - 1], lines[kk - 1], kk % 2)
+                c = seen_sites.get(site, 0)
+                if c < 2:
+                    seen_sites[site] = c + 1
                     picked.append(kk)
             stride = max(1, n // (per_case // 3))
             ks = sorted(set(picked) | set(ks[::stride]) | set(chk.rng.sample(ks, min(len(ks), per_case // 3))))
